@@ -49,8 +49,8 @@ P = {
               'rep': {'type': 'rep_case', 'check': 'rep_mismatches', 'shard': 40}},
     'search': {'rounds': 2, 'n': 40},
     'rule': 'replicas: a case is one block history (quick 15 blocks / 2 replicas, thorough 40 blocks / 3 replicas; every 4th history '
-            'adds a replica in a separate OS process whose environment differs: TZ 14 h ahead, Turkish locale, no home directory; replica 1 runs with the access_list EVM tracer option) generated as for C15 (really signed Cosmos and Ethereum transactions incl. '
-            'precompile call trees, gov, staking, slashing, vesting, liquid vesting, DAO, ERC20; absent validators, evidence, time steps '
+            'adds a replica in a separate OS process whose environment differs: TZ 14 h ahead, Turkish locale, no home directory, GOMAXPROCS=1; replica 1 runs with the access_list EVM tracer option) generated as for C15 (really signed Cosmos and Ethereum transactions incl. '
+            'precompile call trees, batches of 2-3 Ethereum messages in one transaction of which some are invalid in different ways (unprotected, zeroed signature value, foreign chain id: the result must name the first), gov, staking, slashing, vesting, liquid vesting, DAO, ERC20; absent validators, evidence, time steps '
             'of seconds to days and jumps into the hours around a new year; occasionally the v1.7.5 upgrade) plus: complete CometBFT-like headers (so that stored headers hash), '
             'staking HistoricalEntries drawn from {0,1,2,3,5,10000}, the environment-probe contract (harness/envprobe.go: BLOCKHASH of '
             'NUMBER-k for 13 fixed k up to 257 and of the heights in calldata, NUMBER, TIMESTAMP, COINBASE, CHAINID, BASEFEE, GASLIMIT, '
